@@ -236,6 +236,25 @@ for i, h in enumerate(valid_histories(depth)):
     if i % nshards == shard:
         run_sequence(h)
 
+# three (four) resolved next hops on one interface, then every add / delete history of their routes: which gate a next hop
+# gets depends on the order in which earlier ones came and went
+MAC3 = {"10.0.0.1": "aa:bb:cc:00:00:01", "10.0.0.2": "aa:bb:cc:00:00:02", "10.0.0.3": "aa:bb:cc:00:00:03", "10.0.0.4": "aa:bb:cc:00:00:04"}
+R3 = [("access", "192.168.1.0", 24, "10.0.0.1"), ("access", "192.168.4.0", 24, "10.0.0.2"), ("access", "192.168.5.0", 24, "10.0.0.3")]
+if tier != "quick":
+    R3.append(("access", "192.168.6.0", 24, "10.0.0.4"))
+def gate_histories(depth):
+    def rec(prefix, present, d):
+        if d == 0:
+            yield list(prefix); return
+        for r in R3:
+            if r in present: yield from rec(prefix + [("DR",) + r], present - {r}, d - 1)
+            else: yield from rec(prefix + [("NR",) + r], present | {r}, d - 1)
+    yield from rec([], frozenset(), depth)
+for i, h in enumerate(gate_histories(6 if tier == "quick" else 7)):
+    if i % nshards == shard:
+        nhs = sorted({r[3] for r in R3})
+        run_sequence([("NN", nh, MAC3[nh]) for nh in nhs] + h)
+
 # seeded longer histories, also with an unmanaged interface and re-resolving neighbours
 rng = random.Random(seed * 1000 + shard)
 extra_routes = ROUTES + [("mgmt", "10.99.0.0", 16, "10.0.0.1"), ("core", "172.17.0.0", 16, "10.0.1.1"), ("access", "192.168.3.0", 25, "10.0.0.2")]
